@@ -287,6 +287,11 @@ func main() {
 	pure, effectful := extractFuncs(map[string]*pkgInfo{"snaps": snaps, "difflib": difflib, "match": match, "colors": loadPkg(filepath.Join(repo, "internal", "colors"))}, F)
 	write(filepath.Join(out, "Funcs.lean"), pure)
 	write(filepath.Join(out, "FuncsIO.lean"), effectful)
+	if len(os.Args) > 4 && os.Args[3] == "-write-prims" {
+		checkPrims(F, map[string]*pkgInfo{"snaps": snaps, "match": match}, os.Args[4])
+		return
+	}
+	checkPrims(F, map[string]*pkgInfo{"snaps": snaps, "match": match}, "")
 	b, _ := json.MarshalIndent(F, "", " ")
 	write(filepath.Join(out, "facts.json"), string(b))
 }
